@@ -102,6 +102,7 @@ pub fn op(mix: Mix) -> BoxedStrategy<Op> {
     if mix.mutator_ops {
         v.push((1, any::<u8>().prop_map(|m| Op::BindMutator { m }).boxed()));
         v.push((1, any::<u8>().prop_map(|m| Op::DestroyMutator { m }).boxed()));
+        v.push((2, (any::<u8>(), any::<u8>()).prop_map(|(m, k)| Op::RacingGc { m, k }).boxed()));
     }
     if mix.old_young > 0 {
         v.push((mix.old_young, (any::<u8>(), any::<u8>(), any::<u8>(), 0u16..600, prop::bool::weighted(0.3)).prop_map(|(m, src, field, extra, via_region)| Op::OldYoung { m, src, field, extra, via_region }).boxed()));
@@ -192,6 +193,11 @@ pub fn case(plans: &'static [&'static str], mix: Mix, focus: &'static str, max_o
             // for the properties that are about VO bits
             if !matches!(focus, "C07" | "C08") && (v >> 2) % 4 == 0 {
                 opts.push(("__build".to_string(), "base".to_string()));
+            }
+            // the binding adds work packets of its own to later stages of every pause (half of the scheduler
+            // cases, an eighth of the others)
+            if (focus == "C15" && (v >> 4) % 2 == 0) || (v >> 4) % 8 == 1 {
+                opts.push(("__vm_packets".to_string(), "1".to_string()));
             }
             Case { plan: plan.to_string(), variant: variant_for(plan, v), heap_kb, dyn_heap: None, workers, mutators, opts, copy_spin, focus: focus.to_string(), ops }
         })
